@@ -522,6 +522,56 @@ def categorical_case(mode_kind, sample):
 
 
 # ----------------------------------------------------------------------------------------------- fixed cases
+# ----------------------------------------------------------------------------------------------- E. Gaussian
+def gaussian_case(mu, sd, as32):
+    """`Props/GaussTheory.lean`: the density as SciPy evaluates it (`gaussPdf`, `gaussLogPdf`), `exp(logpdf) = pdf`
+    (`gauss_exp_logpdf`), the mean is the mode (`gauss_mode`), raw moments of every order are the polynomial
+    `GaussQ.gaussRawMoment` (`gauss_moment_is_integral`) — evaluated exactly by the driver on the stored parameters."""
+    from deeprob.spn.structure.leaf import Gaussian
+    if as32:
+        mu, sd = float(np.float32(mu)), float(np.float32(sd))
+    leaf = Gaussian(0, mu, sd)
+    leaf.id = 0
+    P = dict(family='gaussian', mean=fs(fx(mu)), stddev=fs(fx(sd)))
+    desc = f'gaussian mean={mu!r} stddev={sd!r}'
+    ks = [0, 1, 2, 3, 4, 5, 6]
+    for k, mm in zip(ks, leafq(P, 'moment', ks)):
+        sc = max(abs(mu), sd) ** k
+        check('gauss.moment', P, 'moment', k, leaf.moment(k), mm, 1e-9, scale=sc, desc=desc)
+        if k <= 4 and sc < 1e30:
+            check('gauss.moment.circuit', P, 'moment', k, np.asarray(M.moment(leaf, order=k))[0], mm, TOL32, scale=sc, desc=desc)
+    # density and log-density at points spread over +-6 sigma, in the form of gaussPdf / gaussLogPdf, in float64
+    zs = [0.0, 0.5, -1.0, 2.5, -4.0, 6.0] + [float(t) for t in rs.uniform(-5, 5, 4)]
+    xs = [mu + z * sd for z in zs]
+    xa = np.array(xs, dtype=np.float64).reshape(-1, 1)
+    lik = leaf.likelihood(xa).ravel()
+    ll = leaf.log_likelihood(xa).ravel()
+    for x, a, l in zip(xs, lik, ll):
+        y = (x - mu) / sd
+        ref_l = -y * y / 2.0 - math.log(math.sqrt(2.0 * math.pi)) - math.log(sd)
+        ref = math.exp(-y * y / 2.0) / math.sqrt(2.0 * math.pi) / sd
+        count('gauss.log_likelihood')
+        if not (abs(float(l) - ref_l) <= TOL32 * max(1.0, abs(ref_l))):
+            MISMATCH.append(dict(kind='gauss.log_likelihood', desc=desc, params=P, fn='logpdf', arg=repr(x), impl=float(l), model=ref_l))
+        count('gauss.likelihood')
+        if not (abs(float(a) - ref) <= 4 * TOL32 * max(abs(ref), 1e-30)) and ref < 3e38:
+            MISMATCH.append(dict(kind='gauss.likelihood', desc=desc, params=P, fn='pdf', arg=repr(x), impl=float(a), model=ref))
+        count('gauss.exp_loglik')
+        if 1e-30 < ref < 3e38 and not (abs(math.exp(float(l)) - float(a)) <= 1e-4 * max(abs(float(a)), 1e-30)):
+            MISMATCH.append(dict(kind='gauss.exp_loglik', desc=desc, params=P, fn='pdf', arg=repr(x), impl=float(a), model=math.exp(float(l))))
+    # mpe fills the mean, which maximises the density
+    got = leaf.mpe(np.array([[np.nan], [xs[1]]], dtype=np.float64))
+    count('gauss.mpe')
+    mode = leafq(P, 'mode')
+    if Fr(float(got[0, 0])) != pq(mode) or float(got[1, 0]) != xs[1]:
+        MISMATCH.append(dict(kind='gauss.mpe', desc=desc, params=P, fn='mode', arg='-', impl=[float(got[0, 0]), float(got[1, 0])], model=mode))
+    others = np.array([mu + float(t) * sd for t in rs.uniform(-6, 6, 200)], dtype=np.float64).reshape(-1, 1)
+    count('gauss.mode_maximal')
+    top = float(leaf.log_likelihood(np.array([[mu]], dtype=np.float64))[0, 0])
+    if float(np.max(leaf.log_likelihood(others))) > top + 1e-6 * max(1.0, abs(top)):
+        MISMATCH.append(dict(kind='gauss.mode_maximal', desc=desc, params=P, fn='logpdf', arg='-', impl=float(np.max(leaf.log_likelihood(others))), model=top))
+
+
 def fixed_cases():
     """the objects of the Lean examples, against the implementation (exact numbers of Props/LeafTheory.lean)"""
     leaf = Isotonic(0, np.array([0.2, 0.0, 0.5, 0.3]), np.array([0.0, 1.0, 1.5, 3.5, 4.0]))
@@ -590,10 +640,15 @@ def main():
         bernoulli_case(p, sample=(i in (1, 3, 4)))
     for i, mk in enumerate(['range', 'gaps', 'neg', 'ties'] * 5):
         categorical_case(mk, sample=(i in (1, 2, 3, 5)))
+    n_gauss = 0
+    for sd in (1e-5, 3e-3, 0.5, 1.0, 2.0, 37.5, 1e3):
+        for mu in (0.0, 1.0, -2.5, 1e2, -1e4, float(rs.normal(0, 3))):
+            gaussian_case(mu, sd * float(rs.uniform(1.0, 1.5)), as32=(n_gauss % 2 == 0))
+            n_gauss += 1
     DRV.close()
 
     print(f'seed {SEED}  driver {EXE}  driver lines {DRV.lines}')
-    print(f'leaves: isotonic {n_iso}, uniform 8, bernoulli {len(ps)}, categorical 20; sampling cases {sampling_cases} '
+    print(f'leaves: isotonic {n_iso}, uniform 8, bernoulli {len(ps)}, categorical 20, gaussian {n_gauss}; sampling cases {sampling_cases} '
           f'x {N_DRAWS} draws, DKW band {EPS:.5f} (family-wise level {FWER:g}), worst deviation {worst_dkw:.5f}')
     for k in sorted(COUNTS):
         print(f'  {k:32s} {COUNTS[k]}')
